@@ -1856,15 +1856,73 @@ def check_listing_filters(ck, R):
 def check_override_writes(ck, R):
     ck.rule(R, "reads return the last value written: a memoize under a key override always writes the new bytes (the "
                "'already stored, reuse it' shortcut applies to content-addressed keys only)", 2)
-    from .c07 import _check_dedupe, BLOB
+    from .c07 import BLOB
     fa = FA(ck, BLOB + ".store")
-    outs = [c for c in fa.calls("output") if A.dotted(A.call_recv(c)) == "data_source"]
+    outs = [c for c in fa.calls("output") if A.dotted(A.call_recv(c)) == "data_source" or _xt(fa, A.call_recv(c), c) == "data_source"]
     exs = [c for c in fa.calls("exists_nonversioned")]
     if len(exs) != 1 or not outs:
         ck.ob(R, fa.key(None, "override-always-writes"), len(exs) == 0 and bool(outs), "no reuse shortcut at all" if len(exs) == 0 and outs else
               "BlobStrategy.store has %d existence tests / %d writes" % (len(exs), len(outs)), fa.where())
         return
-    _check_dedupe(ck, fa, exs[0], outs, R)
+    _check_reuse_shortcut(ck, fa, exs[0], outs, R)
+
+
+def _check_reuse_shortcut(ck, fa: FA, ex, outs, R2):
+    """The reuse shortcut of BlobStrategy.store, decided on what can run under assumptions about the two facts that
+    matter (is there an override? does the content key exist?) -- whatever the tests look like: if statements, guard
+    clauses, a flag local, a conditional expression choosing between "reuse" and "write" inside one statement."""
+    from .effects import Assume, param_truth_atom, call_atom
+    P_ = fa.fi.params
+    ov_p = P_[2] if len(P_) > 2 else "key_override"
+    EX = ("exists_nonversioned",)
+    # what the data source hands back for a stored object is a versioned key, an object: a result variable that holds one is not None
+    NN = ("get_versioned_key", "output")
+    present = Assume(fa, param_truth_atom(ov_p, False, call_atom(EX, True)), nonnull=NN)
+    absent = Assume(fa, param_truth_atom(ov_p, False, call_atom(EX, False)), nonnull=NN)
+    with_ov = Assume(fa, param_truth_atom(ov_p, True), nonnull=NN)
+    # no override, content key present: no write can run
+    ok = not any(present.may_run(o) for o in outs)
+    ck.ob(R2, fa.key(ex, "no-write-when-present"), ok, "output is reached only under an override or when the content key is absent" if ok else
+          "a new object version is written although the content key exists and no override was given", fa.where(ex))
+    # under an override the new bytes are always written (the override location is mutable: the last write must win):
+    # no way to the normal exit avoids the statements that are certain to write
+    must = []
+    for o in outs:
+        must += with_ov.must_run(o)
+    ov_tests = [n for n in fa.cfg.nodes if n.kind == "test" and n.id in fa.cfg.reachable_nodes() and with_ov.truth(n.ast, n.id) is not None]
+    okw = bool(must) and fa.cfg.exit not in with_ov.reach(removed=must)
+    ck.ob(R2, fa.key(ov_tests[0].ast if ov_tests else None, "override-always-writes"), okw, "with a key override the object is always written" if okw else
+          "with a key override store() can return without writing (the reuse shortcut also fires for override keys): a second result "
+          "written under the same override key is dropped and reads return the first one", fa.where(ex))
+    # content key present, no override: what is returned is get_versioned_key(<that content key>)
+    live = present.reach()
+    ex_keys = set()
+    for i in fa.nodes(ex):
+        ex_keys |= present.texts(ex.args[0], i) if ex.args else set()
+    rets = [fa.cfg.node(i).ast for i in sorted(live) if fa.cfg.node(i).kind == "stmt" and isinstance(fa.cfg.node(i).ast, ast.Return)]
+    okr = bool(rets) and bool(ex_keys)
+    for x in rets:
+        for i in present.live(x):
+            for (leaf, n) in (present.cases(x.value, i) if x.value is not None else [(None, i)]):
+                if not (isinstance(leaf, ast.Call) and A.call_attr(leaf) == "get_versioned_key" and len(leaf.args) == 1
+                        and present.texts(leaf.args[0], n) == ex_keys):
+                    okr = False
+    first = rets[0] if rets else ex
+    ck.ob(R2, fa.key(first, "reuse-existing"), okr, "the existing versioned key of the same key is returned" if okr else
+          "the dedupe path does not return get_versioned_key(<content key>)", fa.where(first))
+    # the key tested is the content key, and it is the key that is written when the test fails
+    exarg_ok = bool(ex_keys)
+    for i in fa.nodes(ex):
+        for (leaf, n) in (absent.cases(ex.args[0], i) if ex.args else []):
+            if "call:output_key_for_content_key" not in fa.df.deps(leaf, n):
+                exarg_ok = False
+    for o in outs:
+        keyarg = o.args[0] if o.args else A.kwarg(o, "key")
+        for i in absent.may_run(o):
+            if keyarg is None or absent.texts(keyarg, i) != ex_keys:
+                exarg_ok = False
+    ck.ob(R2, fa.key(ex, "tests-content-key"), bool(exarg_ok), "the existence test is on the content key" if exarg_ok else
+          "the existence test is not on the key that would be written", fa.where(ex))
 
 
 def _refuses_suffixed(ck, fa: FA, names, suffix, depth=2) -> bool:
